@@ -192,6 +192,10 @@ func (w *memWriter) Write(p []byte) (int, error) {
 		if rr.sc.Seed%3 == 0 && len(p) > 1 {
 			return len(p) / 2, errOut // a partial write that then fails (disk full, peer gone)
 		}
+		if rr.sc.Seed%3 == 1 {
+			// the error value io.MultiWriter and friends return; as much an output error as any other (C15-m13)
+			return len(p) / 2, io.ErrShortWrite
+		}
 		return 0, errOut
 	}
 	return len(p), nil
